@@ -37,7 +37,11 @@ fn nontrivial_sel(sel: &Sel, len: usize) -> bool {
 
 /// evaluate `q` (text and programmatic) on `doc`, compare the ordered location sequence
 fn check_q(q: &Query, doc: &J, obs: &mut Obs, nontrivial: bool) -> Res {
-    let text = render_plain(q);
+    check_q_text(q, render_plain(q), doc, obs, nontrivial)
+}
+
+/// `text`: a spelling of `q` (optional blank space at the places the grammar allows it)
+fn check_q_text(q: &Query, text: String, doc: &J, obs: &mut Obs, nontrivial: bool) -> Res {
     let v = doc.to_value();
     let map = node_map(&v);
     let exp: Vec<Loc> = oracle::eval(q, doc, &Quirks::strict()).iter().map(|n| n.loc()).collect();
@@ -231,6 +235,12 @@ fn random_nested(src: &mut Src, obs: &mut Obs) -> Res {
     obs.label(if big { "array<=300" } else { "array<=6" });
     if desc2 {
         obs.label("below-descendant");
+    }
+    // blank space is allowed around every part of a slice and an index (`[ 1 : 5 : 2 ]`)
+    if src.chance(1, 3) {
+        obs.label("spelled-with-blanks");
+        let text = crate::gen::render_with_blanks(src, &q, true);
+        return check_q_text(&q, text, &doc, obs, true);
     }
     check_q(&q, &doc, obs, true)
 }
